@@ -1,3 +1,540 @@
-import sys
+"""check driver: regenerate -> prove -> correspond -> property-directed run -> decide -> evidence.
+
+usage: check --setup
+       check Cxx [--tier quick|thorough] [--replay FILE]
+env:   VERIF_SEED (int), VERIF_TIER, VERIF_REPO (default /repo)
+"""
+import fcntl, glob, hashlib, json, os, re, shutil, subprocess, sys, time
+
+VERIF = os.path.dirname(os.path.dirname(os.path.abspath(__file__)))
+REPO = os.environ.get('VERIF_REPO', '/repo')
+BUILD = os.path.join(VERIF, 'build')
+COQ = os.path.join(VERIF, 'coq')
+BIN = os.path.join(BUILD, 'bin')
+GOENV = dict(os.environ, GOFLAGS='-mod=mod', GOPROXY='off', GOSUMDB='off', GOTOOLCHAIN='local',
+             GONOSUMDB='*', GONOSUMCHECK='1', GOFLAGS_EXTRA='')
+NCPU = 16
+
+TRUSTED_BASE_COMMON = [
+    'Coq 8.16.1 kernel (coqc; vm_compute used for finite facts; native_compute not used)',
+    'translator /verif/tools/gen (go/packages + go/types + go/ssa v0.29.0) reading the working tree of ' + REPO,
+    'correspondence: Go harness /verif/harness driving the real API; model evaluated inside Coq by vm_compute on harness-written case files (no extraction)',
+]
+
+
+def log(*a):
+    print(*a, flush=True)
+
+
+def sh(cmd, timeout=1800, cwd=None, env=None, shell=False):
+    t0 = time.time()
+    try:
+        p = subprocess.run(cmd, cwd=cwd, env=env, shell=shell, stdout=subprocess.PIPE, stderr=subprocess.STDOUT,
+                           timeout=timeout, text=True, errors='replace')
+        return p.returncode, p.stdout, time.time() - t0
+    except subprocess.TimeoutExpired as e:
+        out = e.stdout or ''
+        if isinstance(out, bytes):
+            out = out.decode(errors='replace')
+        return 124, out + '\n[timeout after %ds]' % timeout, time.time() - t0
+
+
+class Lock:
+    def __init__(self, name):
+        os.makedirs(BUILD, exist_ok=True)
+        self.path = os.path.join(BUILD, name + '.lock')
+
+    def __enter__(self):
+        self.f = open(self.path, 'w')
+        fcntl.flock(self.f, fcntl.LOCK_EX)
+        return self
+
+    def __exit__(self, *a):
+        fcntl.flock(self.f, fcntl.LOCK_UN)
+        self.f.close()
+
+
+def newest_mtime(paths):
+    m = 0
+    for p in paths:
+        for root, _, files in os.walk(p):
+            for f in files:
+                m = max(m, os.path.getmtime(os.path.join(root, f)))
+    return m
+
+
+# ------------------------------------------------------------------ build steps
+
+def build_gen_tool():
+    src = os.path.join(VERIF, 'tools', 'gen')
+    out = os.path.join(BIN, 'gen')
+    if os.path.exists(out) and os.path.getmtime(out) >= newest_mtime([src]):
+        return
+    os.makedirs(BIN, exist_ok=True)
+    rc, o, _ = sh(['go', 'build', '-o', out, '.'], cwd=src, env=GOENV, timeout=600)
+    if rc != 0:
+        raise SystemExit('FATAL: cannot build translator:\n' + o)
+
+
+def regenerate():
+    """Run the translator on the working tree. Returns (ok, output)."""
+    with Lock('gen'):
+        build_gen_tool()
+        rc, o, dt = sh([os.path.join(BIN, 'gen'), '-repo', REPO, '-out', os.path.join(COQ, 'Gen')], timeout=600, env=GOENV)
+    return rc == 0, o
+
+
+def gen_diff_vs_baseline():
+    """Names of Gen files that differ from the committed baseline (informational)."""
+    base = os.path.join(VERIF, 'gen_baseline')
+    out = []
+    for f in sorted(glob.glob(os.path.join(COQ, 'Gen', '*.v'))):
+        b = os.path.join(base, os.path.basename(f))
+        if not os.path.exists(b) or open(b).read() != open(f).read():
+            out.append(os.path.basename(f))
+    return out
+
+
+def coq_makefile():
+    mk = os.path.join(COQ, 'Makefile.coq')
+    cp = os.path.join(COQ, '_CoqProject')
+    if not os.path.exists(mk) or os.path.getmtime(mk) < os.path.getmtime(cp):
+        rc, o, _ = sh(['coq_makefile', '-f', '_CoqProject', '-o', 'Makefile.coq'], cwd=COQ)
+        if rc != 0:
+            raise SystemExit('FATAL: coq_makefile failed:\n' + o)
+
+
+def coq_make(targets, timeout=3000):
+    """Full .vo build of the targets (never -vos/-vok). Returns (rc, log)."""
+    with Lock('coq'):
+        coq_makefile()
+        for c in glob.glob(os.path.join(COQ, '**', '.lia.cache'), recursive=True):
+            try:
+                os.remove(c)
+            except OSError:
+                pass
+        rc, o, dt = sh(['make', '-f', 'Makefile.coq', '-j%d' % NCPU, '-k'] + targets, cwd=COQ, timeout=timeout)
+    return rc, o
+
+
+def coqc_file(path, timeout=1200):
+    """Compile a stand-alone file (case file / diagnostics) against the built model."""
+    with Lock('coq-read'):
+        rc, o, dt = sh(['coqc', '-Q', COQ, 'Cose', '-w', '-notation-overridden,-deprecated-hint-without-locality', path],
+                       cwd=os.path.dirname(path), timeout=timeout)
+    return rc, o, dt
+
+
+def harness_build():
+    src = os.path.join(VERIF, 'harness')
+    out = os.path.join(BIN, 'harness')
+    os.makedirs(BIN, exist_ok=True)
+    with Lock('harness'):
+        # the module file is rewritten so that the replace directive points at the tree under test
+        mod = open(os.path.join(src, 'go.mod.in')).read().replace('@REPO@', REPO)
+        modpath = os.path.join(src, 'go.mod')
+        if not os.path.exists(modpath) or open(modpath).read() != mod:
+            open(modpath, 'w').write(mod)
+        sums = ''
+        for s in (os.path.join(REPO, 'go.sum'), os.path.join(src, 'go.sum.extra')):
+            if os.path.exists(s):
+                sums += open(s).read()
+        open(os.path.join(src, 'go.sum'), 'w').write(sums)
+        rc, o, dt = sh(['go', 'build', '-o', out, '.'], cwd=src, env=GOENV, timeout=900)
+    return rc, o
+
+
+def run_harness(args, timeout=1800):
+    env = dict(GOENV)
+    rc, o, dt = sh([os.path.join(BIN, 'harness')] + args, cwd=BUILD, env=env, timeout=timeout)
+    return rc, o, dt
+
+
+# ------------------------------------------------------------------ proof log parsing
+
+def theorems_in(props_file):
+    src = open(props_file).read()
+    return re.findall(r'^\s*Theorem\s+([A-Za-z0-9_\']+)', src, re.M)
+
+
+def parse_assumptions(output, names):
+    """Map theorem name -> 'closed' | [axioms] from the coqc output of a Props file.
+    Print Assumptions results appear in file order."""
+    blocks = []
+    lines = output.split('\n')
+    i = 0
+    while i < len(lines):
+        l = lines[i]
+        if l.startswith('Closed under the global context'):
+            blocks.append('closed')
+        elif l.startswith('Axioms:'):
+            ax = []
+            i += 1
+            while i < len(lines) and (lines[i].startswith(' ') or lines[i].strip() == '' or ':' in lines[i]) and not lines[i].startswith('Closed') and not lines[i].startswith('Axioms:'):
+                if lines[i].strip():
+                    m = re.match(r'^([A-Za-z0-9_.\']+)\s*:', lines[i])
+                    if m:
+                        ax.append(m.group(1))
+                i += 1
+            blocks.append(ax)
+            continue
+        i += 1
+    res = {}
+    for n, b in zip(names, blocks):
+        res[n] = b
+    return res, len(blocks)
+
+
+def enclosing_lemma(path, line):
+    try:
+        src = open(path).read().split('\n')
+    except OSError:
+        return None
+    for i in range(min(line, len(src)) - 1, -1, -1):
+        m = re.match(r'^\s*(?:Local\s+|Global\s+)?(Theorem|Lemma|Corollary|Example|Fact|Definition|Fixpoint|Instance)\s+([A-Za-z0-9_\']+)', src[i])
+        if m:
+            return m.group(2)
+    return None
+
+
+def broken_obligations(makelog):
+    out = []
+    for m in re.finditer(r'File "\./([^"]+)", line (\d+), characters [\d-]+:\s*\nError:\s*((?:.|\n)*?)(?:\n\n|\nmake|$)', makelog):
+        f, ln, msg = m.group(1), int(m.group(2)), m.group(3)
+        out.append({'file': 'coq/' + f, 'line': ln, 'lemma': enclosing_lemma(os.path.join(COQ, f), ln),
+                    'error': ' '.join(msg.split())[:400]})
+    return out
+
+
+FORBIDDEN = re.compile(r'\b(Admitted|admit|Axiom|Axioms|Parameter|Parameters|Conjecture|Conjectures|Hypothesis|Variable|Variables|Hypotheses)\b|Unset\s+Guard|bypass_check|Admit\s+Obligations|type-in-type|impredicative-set')
+
+
+def strip_comments(src):
+    out = []
+    depth = 0
+    i = 0
+    instr = False
+    while i < len(src):
+        if not instr and src.startswith('(*', i):
+            depth += 1
+            i += 2
+            continue
+        if not instr and depth > 0 and src.startswith('*)', i):
+            depth -= 1
+            i += 2
+            continue
+        if depth == 0:
+            if src[i] == '"':
+                instr = not instr
+            out.append(src[i])
+        elif src[i] == '\n':
+            out.append('\n')
+        i += 1
+    return ''.join(out)
+
+
+def hygiene():
+    """No Admitted/admit/Axiom/Parameter/Conjecture anywhere; Variable/Hypothesis only inside a Section."""
+    bad = []
+    for f in sorted(glob.glob(os.path.join(COQ, '**', '*.v'), recursive=True)):
+        src = strip_comments(open(f).read())
+        depth = 0
+        for n, line in enumerate(src.split('\n'), 1):
+            code = re.sub(r'"[^"]*"', '""', line)
+            if re.match(r'^\s*Section\s', code):
+                depth += 1
+            if re.match(r'^\s*End\s', code) and depth > 0:
+                depth -= 1
+            for m in FORBIDDEN.finditer(code):
+                w = m.group(0)
+                if w in ('Hypothesis', 'Variable', 'Variables', 'Hypotheses') and depth > 0:
+                    continue
+                bad.append('%s:%d: %s' % (os.path.relpath(f, VERIF), n, w))
+    return bad
+
+
+# ------------------------------------------------------------------ evidence / decision
+
+def load_known():
+    p = os.path.join(VERIF, 'known_findings.json')
+    if os.path.exists(p):
+        return json.load(open(p))
+    return {'findings': [], 'fixed': []}
+
+
+def finding_matches(finding, prop, failure):
+    if finding.get('property') != prop:
+        return False
+    pat = finding.get('match', {})
+    for k, v in pat.items():
+        if not re.search(v, str(failure.get(k, ''))):
+            return False
+    return True
+
+
+def write_replay(prop, n, obj):
+    d = os.path.join(BUILD, 'replay')
+    os.makedirs(d, exist_ok=True)
+    p = os.path.join(d, '%s-%d.json' % (prop, n))
+    json.dump(obj, open(p, 'w'), indent=1)
+    return p
+
+
+def repo_commit():
+    rc, o, _ = sh(['git', '-C', REPO, 'rev-parse', 'HEAD'])
+    rc2, o2, _ = sh(['git', '-C', REPO, 'status', '--porcelain'])
+    return o.strip() + ('+dirty' if o2.strip() else '')
+
+
+class Run:
+    """State of one check run."""
+
+    def __init__(self, prop, tier, seed):
+        self.prop, self.tier, self.seed = prop, tier, seed
+        self.t0 = time.time()
+        self.failures = []      # concrete failing inputs on the implementation
+        self.broken = []        # broken proof obligations / correspondences (names)
+        self.cov = {'evaluations': 0, 'distinct_nontrivial': 0, 'samples': [], 'rule': ''}
+        self.notes = {}
+        self.assumptions = []
+        self.obligations = 0
+        self.discharged = 0
+        self.checker_cmd = ''
+        self.trusted = list(TRUSTED_BASE_COMMON)
+        self.theorem_status = {}
+        self.outdir = os.path.join(BUILD, 'runs', '%s-%s-%d' % (prop, tier, os.getpid()))
+        os.makedirs(self.outdir, exist_ok=True)
+
+    def fail(self, **kw):
+        self.failures.append(kw)
+
+    def broke(self, what, detail=''):
+        self.broken.append({'what': what, 'detail': detail})
+
+
+def prove(run, extra_targets=()):
+    """Steps 1+2: regenerate, then build Props/<prop>.vo (full .vo) and read Print Assumptions."""
+    ok, o = regenerate()
+    if not ok:
+        run.broke('translator', o[-2000:])
+        return False
+    props = os.path.join(COQ, 'Props', run.prop + '.v')
+    names = theorems_in(props)
+    run.obligations = len(names)
+    vo = props + 'o'
+    if os.path.exists(vo):
+        os.remove(vo)   # force Print Assumptions output into this run's log
+    targets = ['Props/%s.vo' % run.prop] + list(extra_targets)
+    run.checker_cmd = 'cd /verif/coq && coq_makefile -f _CoqProject -o Makefile.coq && make -f Makefile.coq -j16 ' + ' '.join(targets)
+    rc, mlog = coq_make(targets)
+    open(os.path.join(run.outdir, 'make.log'), 'w').write(mlog)
+    bad = hygiene()
+    if bad:
+        run.broke('hygiene', '; '.join(bad[:20]))
+    if rc != 0:
+        for b in broken_obligations(mlog):
+            run.broke('proof %s (%s:%d)' % (b['lemma'], b['file'], b['line']), b['error'])
+        if not run.broken:
+            run.broke('coq build', mlog[-1500:])
+        return False
+    status, nblocks = parse_assumptions(mlog, names)
+    run.theorem_status = status
+    allowed = set(AXIOMS_ALLOWED)
+    disc = 0
+    for n in names:
+        st = status.get(n)
+        if st == 'closed':
+            disc += 1
+        elif isinstance(st, list) and all(a in allowed for a in st):
+            disc += 1
+        else:
+            run.broke('theorem %s: Print Assumptions = %r' % (n, st))
+    run.discharged = disc
+    return not run.broken
+
+
+# standard-library axioms that may appear (each is named in DESIGN.md section 9 when it does)
+AXIOMS_ALLOWED = []
+
+
+def correspond(run, stream, hargs, timeout=1800):
+    """Step 3: harness writes <stream>_cases.v (observed outcomes); Coq evaluates the model on the
+    same inputs and prints the mismatching case indices."""
+    os.makedirs(run.outdir, exist_ok=True)
+    rc, o, dt = run_harness([stream, '-seed', str(run.seed), '-tier', run.tier, '-out', run.outdir] + hargs, timeout=timeout)
+    meta_p = os.path.join(run.outdir, stream + '.json')
+    if rc != 0 or not os.path.exists(meta_p):
+        run.broke('harness stream %s failed (rc=%d)' % (stream, rc), o[-1500:])
+        return None
+    meta = json.load(open(meta_p))
+    run.cov['evaluations'] += meta.get('evaluations', 0)
+    run.cov['distinct_nontrivial'] += meta.get('distinct_nontrivial', 0)
+    run.cov['samples'] += meta.get('samples', [])[:4]
+    run.notes.setdefault('input_distribution', {})[stream] = meta.get('distribution', {})
+    for f in meta.get('failures', []):
+        run.fail(source='oracle:' + stream, **f)
+    mism = []
+    for cf in meta.get('case_files', []):
+        rc, out, dt = coqc_file(os.path.join(run.outdir, cf), timeout=timeout)
+        if rc != 0:
+            run.broke('correspondence %s: case file %s does not evaluate' % (stream, cf), out[-1500:])
+            continue
+        m = re.search(r'MISMATCHES\s*=\s*(\[[^\]]*\])', out.replace('\n', ' '))
+        if not m:
+            run.broke('correspondence %s: no result in coqc output' % stream, out[-800:])
+            continue
+        idx = [int(x) for x in re.findall(r'\d+', m.group(1))]
+        for i in idx:
+            mism.append((cf, i))
+    cases = meta.get('cases', {})
+    for cf, i in mism:
+        c = cases.get(cf, [])
+        line = c[i] if i < len(c) else '?'
+        run.broke('correspondence %s: model and implementation differ' % stream, 'case %s#%d: %s' % (cf, i, line))
+        run.notes.setdefault('mismatches', []).append({'stream': stream, 'file': cf, 'index': i, 'case': line})
+    run.notes.setdefault('correspondence', {})[stream] = {'cases': meta.get('evaluations', 0), 'mismatches': len(mism)}
+    return meta
+
+
+def oracle(run, stream, hargs, timeout=1800):
+    """Step 4: property-directed run on the implementation only (no Coq involved)."""
+    rc, o, dt = run_harness([stream, '-seed', str(run.seed), '-tier', run.tier, '-out', run.outdir] + hargs, timeout=timeout)
+    meta_p = os.path.join(run.outdir, stream + '.json')
+    if rc != 0 or not os.path.exists(meta_p):
+        run.broke('harness stream %s failed (rc=%d)' % (stream, rc), o[-1500:])
+        return None
+    meta = json.load(open(meta_p))
+    run.cov['evaluations'] += meta.get('evaluations', 0)
+    run.cov['distinct_nontrivial'] += meta.get('distinct_nontrivial', 0)
+    run.cov['samples'] += meta.get('samples', [])[:4]
+    run.notes.setdefault('input_distribution', {})[stream] = meta.get('distribution', {})
+    for f in meta.get('failures', []):
+        run.fail(source='oracle:' + stream, **f)
+    return meta
+
+
+def finish(run, level='proof', level_note=''):
+    """Step 5+6: classify, print, write evidence, return exit code."""
+    known = load_known()
+    printed_known = []
+    violations = []
+    for f in run.failures:
+        hit = None
+        for k in known.get('findings', []):
+            if finding_matches(k, run.prop, f):
+                hit = k
+                break
+        if hit:
+            if hit['id'] not in printed_known:
+                printed_known.append(hit['id'])
+                log('KNOWN-FINDING: property=%s %s' % (run.prop, hit['description']))
+        else:
+            violations.append(f)
+    rc = 0
+    n = 0
+    if violations:
+        # one replay per distinct failing operation (cap the noise)
+        seen = set()
+        for f in violations:
+            key = (f.get('op'), f.get('what'))
+            if key in seen:
+                continue
+            seen.add(key)
+            n += 1
+            if n > 5:
+                break
+            p = write_replay(run.prop, n, {'property': run.prop, 'kind': 'failing-input', 'repo': REPO, 'repo_commit': repo_commit(),
+                                           'seed': run.seed, 'tier': run.tier, 'failure': f, 'broken': run.broken,
+                                           'how_to_replay': './check %s --replay <this file>' % run.prop})
+            log('VIOLATION property=%s replay=%s' % (run.prop, p))
+        rc = 1
+    elif run.broken:
+        p = write_replay(run.prop, 1, {'property': run.prop, 'kind': 'no-failing-input-found', 'repo': REPO, 'repo_commit': repo_commit(),
+                                       'seed': run.seed, 'tier': run.tier, 'broken': run.broken,
+                                       'note': 'the named theorem / correspondence no longer checks; the search found no input on which the implementation violates the property'})
+        log('VIOLATION property=%s replay=%s no-failing-input-found' % (run.prop, p))
+        rc = 1
+    cov = dict(run.cov)
+    cov['samples'] = (cov['samples'] or [])[:12]
+    cov.update({'obligations': run.obligations, 'discharged': run.discharged, 'checker_cmd': run.checker_cmd,
+                'trusted_base': run.trusted})
+    th = [{'theorem': k, 'assumptions': ('Closed under the global context' if v == 'closed' else v)} for k, v in run.theorem_status.items()]
+    cov['theorems'] = th
+    if th and not cov['samples']:
+        cov['samples'] = th[:6]
+    else:
+        cov['samples'] = cov['samples'] + th[:3]
+    cov['gen_diff_vs_baseline'] = gen_diff_vs_baseline()
+    cov['known_findings_printed'] = printed_known
+    cov['broken'] = run.broken[:20]
+    cov.update(run.notes)
+    ev = {'property_id': run.prop, 'tier': run.tier, 'seed': run.seed, 'level': level, 'coverage': cov,
+          'assumptions': run.assumptions, 'wall_s': round(time.time() - run.t0, 2), 'violations': len(violations) + (1 if (run.broken and not violations) else 0),
+          'repo': REPO, 'repo_commit': repo_commit()}
+    os.makedirs(os.path.join(VERIF, 'evidence'), exist_ok=True)
+    json.dump(ev, open(os.path.join(VERIF, 'evidence', run.prop + '.json'), 'w'), indent=1)
+    log('%s: %s obligations=%d discharged=%d evaluations=%d failures=%d broken=%d wall=%.1fs' % (
+        run.prop, 'OK' if rc == 0 else 'FAIL', run.obligations, run.discharged, cov['evaluations'], len(violations), len(run.broken), time.time() - run.t0))
+    shutil.rmtree(run.outdir, ignore_errors=True)
+    return rc
+
+
+# ------------------------------------------------------------------ entry points
+
+def setup():
+    t0 = time.time()
+    ok, o = regenerate()
+    if not ok:
+        log(o)
+        return 1
+    rc, o = harness_build()
+    if rc != 0:
+        log(o)
+        return 1
+    rc, o = coq_make(['all'], timeout=7200)
+    tail = '\n'.join([l for l in o.split('\n') if not l.startswith('COQC') and not l.startswith('COQDEP')][-30:])
+    log(tail)
+    if rc != 0:
+        log('setup: coq build FAILED')
+        return 1
+    bad = hygiene()
+    if bad:
+        log('setup: hygiene: ' + '; '.join(bad))
+        return 1
+    log('setup ok in %.0fs' % (time.time() - t0))
+    return 0
+
+
 def main(argv):
-    print("setup: nothing to build yet"); return 0
+    import props
+    if not argv or argv[0] in ('-h', '--help'):
+        print(__doc__)
+        return 2
+    if argv[0] == '--setup':
+        return setup()
+    prop = argv[0]
+    tier = os.environ.get('VERIF_TIER', 'quick')
+    replay = None
+    i = 1
+    while i < len(argv):
+        if argv[i] == '--tier':
+            tier = argv[i + 1]
+            i += 2
+        elif argv[i] == '--replay':
+            replay = argv[i + 1]
+            i += 2
+        else:
+            i += 1
+    if tier not in ('quick', 'thorough'):
+        tier = 'quick'
+    try:
+        seed = int(os.environ.get('VERIF_SEED', '1'))
+    except ValueError:
+        seed = 1
+    if prop not in props.CHECKS:
+        log('unknown property ' + prop)
+        return 2
+    if replay:
+        return props.replay(prop, replay)
+    run = Run(prop, tier, seed)
+    return props.CHECKS[prop](run)
